@@ -684,6 +684,9 @@ CORPUS = [
     # the witnesses of the repaired findings C07.F4 and C07.F3 (reported again as violations if they ever return)
     {'chunks': [['d', ':\r\n'], ['d', 'PING :after\r\n']], 'cbs': [], 'addmsg': [], 'final_ping': 'after'},
     {'chunks': [['d', '@time :x PING y\r\n'], ['d', 'PING :after\r\n']], 'cbs': [], 'addmsg': [], 'final_ping': 'after'},
+    # witness of the repaired finding C05.F30: a prefix isUserHostmask accepts and the old splitHostmask could not split
+    {'chunks': [['d', ':a!b@c!d PING :x\r\n'], ['d', 'PING :after\r\n']], 'cbs': [], 'addmsg': [], 'final_ping': 'after'},
+    {'chunks': [['d', ':a!b@c@d!e PRIVMSG #c :x\r\n:!a!b@c!@ JOIN #c\r\nPING :b\r\n'], ['d', 'PING :after\r\n']], 'cbs': [], 'addmsg': [], 'final_ping': 'after'},
     {'chunks': [['d', ':\n']], 'cbs': [], 'addmsg': []},
     {'chunks': [['d', '@time :x PING y\r\n']], 'cbs': [], 'addmsg': []},
     {'chunks': [['d', 'PING :a\r\n:\r\nPING :b\r\n'], ['d', 'PING :c\r\n']], 'cbs': [], 'addmsg': [], 'final_ping': 'c'},
